@@ -60,7 +60,9 @@ func init() {
 
 // prepZeroArgBatch enables the wrong-arity variant "batch entry with NO values for a
 // statement that has bind markers" (the driver sends such an entry as plain query text).
-const prepZeroArgBatch = true
+// Off: an entry without arguments is by API contract a simple statement that is never
+// prepared, so the driver cannot know its arity; the server rejects it. Not a C14 defect.
+const prepZeroArgBatch = false
 
 var prepTokRe = regexp.MustCompile(`^ptok-[0-9]+-[0-9]+-[0-9]+$`)
 
